@@ -108,11 +108,13 @@ InitWith(c) ==
 Init == \E c \in Cfgs : InitWith(c)
 
 (* ---- semaphores --------------------------------------------------------- *)
+\* A limiter without a semaphore (Cap = 0: empty MultiLimit) never blocks and never
+\* panics; sem then merely counts its users (which keeps the bucket from being reaped).
 CanAcq(s, k) == Cap(s) = 0 \/ sem[s][k] < Cap(s)
-Acq(s, k)    == IF Cap(s) = 0 THEN sem ELSE [sem EXCEPT ![s][k] = @ + 1]
+Acq(s, k)    == [sem EXCEPT ![s][k] = @ + 1]
 \* Semaphore.Release: "mismatched Release call" when nothing is held
 RelOK(sm, s, k) == Cap(s) = 0 \/ sm[s][k] > 0
-Rel(sm, s, k)   == IF Cap(s) = 0 THEN sm ELSE [sm EXCEPT ![s][k] = @ - 1]
+Rel(sm, s, k)   == IF sm[s][k] > 0 THEN [sm EXCEPT ![s][k] = @ - 1] ELSE sm
 \* BucketSet.Release: an unknown key is ignored
 BRelOK(sm, s, k) == k \notin tab[s] \/ RelOK(sm, s, k)
 BRel(sm, s, k)   == IF k \in tab[s] THEN Rel(sm, s, k) ELSE sm
@@ -334,9 +336,10 @@ MailReject(m, d) ==
   /\ hist' = H([a |-> "MailReject", m |-> m, d |-> d])
   /\ UNCHANGED <<cfg, pc, arg, exp, age, res, ops, tab, fresh, extra, xfresh, phase>>
 
+RetVal(m) == IF pc[m] = "r_ok" \/ (pc[m] = "r_rel" /\ res[m] # "rejected") THEN "ok" ELSE res[m]
 Return(m) ==
   /\ pc[m] \in RetPc
-  /\ LET r == IF pc[m] = "r_ok" \/ (pc[m] = "r_rel" /\ res[m] # "rejected") THEN "ok" ELSE res[m]
+  /\ LET r == RetVal(m)
          op == obs.pend[m].op
          ends == (op = "TakeMsg" /\ r # "ok") \/ op = "RelMsg" \/ op = "End" IN
        /\ obs' = ObsRet(obs, m, r)
@@ -399,7 +402,7 @@ Fill(s) ==
        /\ hist' = H([a |-> "Fill", s |-> s])
   /\ UNCHANGED <<cfg, pc, arg, held, exp, age, res, ops, sem, tab, fresh, devs, phase, obs>>
 
-UseOf == [s \in Scopes |-> [k \in (IF s = "all" THEN {AllKey} ELSE tab[s]) |-> sem[s][k]]]
+UseOf == [s \in Scopes |-> [k \in (IF s = "all" THEN {AllKey} ELSE tab[s]) |-> IF Cap(s) > 0 THEN sem[s][k] ELSE 0]]
 NoSemOf == {<<s, k>> : s \in {x \in Scopes : Cap(x) = 0}, k \in Keys \cup {AllKey}}
 
 AllOver == \A m \in Msgs : pc[m] \in {"done", "crashed"} \/ (pc[m] = "idle" /\ ~held[m].msg /\ held[m].dst = {})
@@ -456,6 +459,6 @@ QuiescentFree ==
 TypeOK ==
   /\ pc \in [Msgs -> {"idle", "done", "crashed", "w_all", "t_ip", "w_ip", "rb_a", "t_src", "w_src",
                       "rb_b1", "rb_b2", "t_dst", "w_dst", "x_all", "x_ip", "x_src", "x_dst", "e_dst"} \cup RetPc]
-  /\ \A s \in Scopes, k \in Keys \cup {AllKey} : sem[s][k] \in 0..3
+  /\ \A s \in Scopes, k \in Keys \cup {AllKey} : sem[s][k] \in 0..Cardinality(Msgs)
   /\ \A s \in BScopes : tab[s] \subseteq KeysOf(s) /\ fresh[s] \subseteq tab[s] /\ xfresh[s] <= extra[s]
 =============================================================================
